@@ -12,6 +12,8 @@ ProfA == { <<"soft", "soft", "hard", "soft", "fixed">> }
 AreaA == { <<12, 3, 2, 28, 1>> }
 \* the same with a fixed terminal (a pin) instead of the fixed square
 AreaAT == { <<12, 3, 2, 28, 1>>, <<12, 3, 2, 28, 4>> }
+\* ... and with a module whose disc is exactly as wide as the die (area 50: radius 4 = half the side)
+AreaAX == AreaAT \cup { <<12, 3, 2, 50, 1>> }
 \* quick: soft r=2, soft r=3, bar, soft r=3 (fewer seeds: the seed range of a large module is short)
 AreaAQ == { <<12, 28, 2, 28, 1>> }
 FixA == { <<2, -2>> }
